@@ -112,6 +112,8 @@ fn force(
             );
             *lazy_lock = Lazy_::Blackhole(vm as *const Thread as usize, None);
             drop(lazy_lock);
+            #[cfg(feature = "verif_hooks")]
+            crate::verif::sched_point("lazy_force_unlocked");
             let vm = vm.root_thread();
             Either::Right(Either::Left(async move {
                 match function.call_async(()).await {
